@@ -64,11 +64,14 @@ type schedExec struct {
 	snapGen  map[int]map[string]int // cleaner id -> key -> generation of the Set the snapshot saw (monitor)
 	bgParked bool
 	stopped  bool
+	stopCalled bool
+	stops    map[int]chan struct{} // concurrent Stop callers
 }
 
 func newSchedExec(maxTTL int64, iv time.Duration, res *lib.Result, cs *Case) *schedExec {
 	x := &schedExec{res: res, cs: cs, reg: map[int64]int{}, parkCh: make(chan *parkEvent, 16),
-		parked: map[int]*parkEvent{}, done: map[int]chan string{}, snapGen: map[int]map[string]int{}}
+		parked: map[int]*parkEvent{}, done: map[int]chan string{}, snapGen: map[int]map[string]int{},
+		stops: map[int]chan struct{}{}}
 	x.clk = ttlcache.NewVerifClock(t0)
 	x.mon = newMonitor(maxTTL, res, cs)
 	verifhook.Set(x.hook)
@@ -264,19 +267,76 @@ func (x *schedExec) exec(line string) string {
 			pending := x.clk.TickPending()
 			close(ev.release)
 			x.noteFinish(0, false)
-			if !pending {
+			if x.stopCalled {
+				// stopCh is closed: the released cleaner finishes its delete, sees stopCh and exits
+				// (deferred ticker.Stop, close(runningCh)); wait for that instead of for its select.
+				for i := 0; i < 40000 && x.clk.TickerStops.Load() == 0; i++ {
+					time.Sleep(50 * time.Microsecond)
+				}
+			} else if !pending {
 				// the cleaner goes back to its select; nothing observable follows. Give it a moment so
 				// that its bulk delete has happened before the next scripted operation.
 				x.settleBg(n0)
 			}
 			x.res.Hit("op:bgfinish")
 			return "ok"
+		case "stopcall": // a concurrent Stop caller
+			id64, ok := kv.i64("id")
+			id := int(id64)
+			if !ok || x.stops[id] != nil {
+				return "error"
+			}
+			ch := make(chan struct{})
+			x.stops[id] = ch
+			x.stopCalled = true
+			go func() { x.c.Stop(); close(ch) }()
+			wait := 3 * time.Second
+			if x.bgParked {
+				wait = 5 * time.Millisecond // it must block: the periodic cleaner is inside Cleanup
+			}
+			select {
+			case <-ch:
+				x.res.Hit("op:stopcall-returned")
+				if x.bgParked {
+					x.res.Violate("stop-returned-before-cleaner-exit",
+						fmt.Sprintf("concurrent Stop caller %d returned while the periodic cleaner was still inside Cleanup (parked between snapshot and bulk delete); %d Stop call(s) were already waiting", id, len(x.stops)-1), x.cs)
+				} else if x.clk.TickerStops.Load() != 1 {
+					x.res.Violate("stop-returned-before-cleaner-exit", "Stop returned but the cleaner's deferred ticker.Stop had not run", x.cs)
+				}
+				x.stopped = true
+				return "returned"
+			case <-time.After(wait):
+				x.res.Hit("op:stopcall-blocked")
+				if !x.bgParked {
+					x.res.Violate("stop-hangs", fmt.Sprintf("Stop caller %d did not return within 3s although the cleaner was idle", id), x.cs)
+				}
+				return "blocked"
+			}
+		case "stopwait":
+			id64, ok := kv.i64("id")
+			ch := x.stops[int(id64)]
+			if !ok || ch == nil {
+				return "error"
+			}
+			select {
+			case <-ch:
+				if x.clk.TickerStops.Load() != 1 {
+					x.res.Violate("stop-returned-before-cleaner-exit", "Stop returned but the cleaner's deferred ticker.Stop had not run", x.cs)
+				}
+				x.stopped = true
+				x.res.Hit("op:stopwait")
+				return "ok"
+			case <-time.After(3 * time.Second):
+				x.res.Violate("stop-hangs", fmt.Sprintf("Stop caller %d still blocked 3s after the cleaner was released", id64), x.cs)
+				return "timeout"
+			}
 		case "stop":
 			if x.bgParked || len(x.parked) > 0 {
 				return "error"
 			}
 			x.c.Stop()
 			x.stopped = true
+			x.stopCalled = true
 			if x.clk.TickerStops.Load() != 1 {
 				x.res.Violate("stop-returned-before-cleaner-exit", "Stop returned but the cleaner's deferred ticker.Stop had not run", x.cs)
 			}
@@ -342,6 +402,13 @@ func (x *schedExec) close() {
 		}
 		break
 	}
+	for id, ch := range x.stops {
+		select {
+		case <-ch:
+		case <-time.After(3 * time.Second):
+			x.res.Violate("stop-hangs", fmt.Sprintf("Stop caller %d never returned", id), x.cs)
+		}
+	}
 	verifhook.Set(nil)
 }
 
@@ -397,12 +464,51 @@ func raceCases() []*Case {
 	return out
 }
 
+// concurrent Stop callers (always run): the periodic cleaner is parked inside Cleanup; EVERY Stop
+// caller must stay blocked until it is released; afterwards all return and the cleaner deletes nothing more.
+func stopCases() []*Case {
+	var out []*Case
+	for n := 2; n <= 4; n++ {
+		cs := &Case{Mode: "sched"}
+		add := func(s string) { cs.Lines = append(cs.Lines, s) }
+		add(fmt.Sprintf("cnew max=0 t0=%d iv=%d", t0.UnixNano(), nsPerSecond))
+		add("set k=a v=1 ttl=1")
+		add("set k=b v=2 ttl=60")
+		add(fmt.Sprintf("adv d=%d", 2*nsPerSecond)) // tick
+		add("bgsnap")                              // periodic cleaner parked between snapshot and delete
+		for i := 1; i <= n; i++ {
+			add(fmt.Sprintf("stopcall id=%d", i)) // all must block
+		}
+		add("set k=a v=3 ttl=60")
+		add("get k=a")
+		add("bgfinish") // cleaner deletes a (documented race), exits
+		for i := n; i >= 1; i-- {
+			add(fmt.Sprintf("stopwait id=%d", i))
+		}
+		add(fmt.Sprintf("stopcall id=%d", n+1)) // sequential Stop after exit: returns at once
+		add("get k=a")
+		add("set k=a v=4 ttl=1")
+		add(fmt.Sprintf("adv d=%d", 5*nsPerSecond)) // no tick any more: ticker stopped
+		add("get k=b")
+		add("dump") // a is expired but nobody cleans any more
+		out = append(out, cs)
+	}
+	// Stop on an idle cleaner, then more Stops
+	cs := &Case{Mode: "sched"}
+	cs.Lines = []string{fmt.Sprintf("cnew max=0 t0=%d iv=%d", t0.UnixNano(), nsPerSecond), "set k=a v=1 ttl=1",
+		"stopcall id=1", "stopcall id=2", fmt.Sprintf("adv d=%d", 3*nsPerSecond), "get k=a", "dump", "stop"}
+	out = append(out, cs)
+	return out
+}
+
 func genSched(r *lib.Rand, res *lib.Result, n int) (*Case, []string, *monitor) {
 	maxTTL := []int64{0, 0, 2, 4}[r.Intn(4)]
 	iv := int64(r.Range(2, 8)) * nsPerSecond / 2
 	cs := &Case{Mode: "sched", Seed: r.S}
 	x := newSchedExec(maxTTL, time.Duration(iv), res, cs)
 	defer x.close()
+	curMon = x.mon
+	defer func() { curMon = nil }()
 	var outs []string
 	emit := func(l string) string {
 		cs.Lines = append(cs.Lines, l)
@@ -493,6 +599,23 @@ func runSched(f lib.Flags, res *lib.Result, drv *lib.Drv, r *lib.Rand) {
 		res.Hit("family:forced-documented-race")
 		res.Traces++
 	}
+	for _, cs := range stopCases() {
+		outs := runSchedLines(cs, res)
+		for i, l := range cs.Lines {
+			if strings.HasPrefix(l, "stopcall") && i > 0 && outs[i] == "returned" {
+				// every stopcall issued while the cleaner is parked must have blocked (monitor in exec); here
+				// only bookkeeping for the distribution
+				res.Hit("stop:concurrent-caller-returned")
+			}
+			if outs[i] == "blocked" {
+				res.Hit("stop:concurrent-caller-blocked-while-cleaner-mid-Cleanup")
+			}
+		}
+		diff(drv, res, schedCorr, cs, outs)
+		res.Count(strings.Join(cs.Lines, "|"), true)
+		res.Hit("family:forced-concurrent-stop")
+		res.Traces++
+	}
 	n := 150
 	if f.Tier == "thorough" {
 		n = 2500
@@ -573,6 +696,23 @@ func stopScenario(res *lib.Result, cs *Case, midCleanup bool, r *lib.Rand) strin
 		}
 		if clk.TickerStops.Load() != 0 {
 			res.Violate("stop-returned-before-cleaner-exit", "ticker stopped while the cleaner was still inside Cleanup", cs)
+		}
+		// more concurrent Stop callers: none may return while the cleaner is inside Cleanup
+		for j := 2; j <= 3; j++ {
+			rj := make(chan struct{})
+			go func() { c.Stop(); close(rj) }()
+			select {
+			case <-rj:
+				res.Violate("stop-returned-before-cleaner-exit", fmt.Sprintf("concurrent Stop call #%d returned while the cleaner goroutine was inside Cleanup (Stop #1 still waiting)", j), cs)
+			case <-time.After(2 * time.Millisecond):
+			}
+			defer func() {
+				select {
+				case <-rj:
+				case <-time.After(3 * time.Second):
+					res.Violate("stop-hangs", "a concurrent Stop never returned", cs)
+				}
+			}()
 		}
 		var none *func()
 		clk.NowHook.Store(none)
@@ -826,9 +966,17 @@ func freeRun(res *lib.Result, cs *Case, r *lib.Rand, withReset, long bool) {
 					if explained {
 						res.Hit("free:miss-explained-by-documented-race")
 					} else if stillStored(own.name, int(last.val)) {
-						report("concurrent-lookup-missed-stored-entry", fmt.Sprintf("Get(%s) missed v=%d although the entry is live and still stored (no cleaner removed it): the map lookup itself failed", own.name, last.val))
+						// stored and live, yet missed. Whose miss? Ask the raw map and the cache again.
+						_, rexp, rok := c.VerifMapGet(own.name)
+						_, ok2 := c.Get(own.name)
+						if rok && !ok2 && rexp.After(clk.Now()) {
+							// the map finds it, the entry is unexpired, the cache still says miss: ttlcache's own logic
+							report("get-missed-live-entry", fmt.Sprintf("Get(%s) keeps missing v=%d although the map lookup finds the entry and it expires at %s (now %s)", own.name, last.val, showTime(rexp), showTime(clk.Now())))
+						} else {
+							report("free-run-lookup-missed-stored-entry", fmt.Sprintf("Get(%s) missed v=%d although the entry is live and still stored and no cleaner removed it; raw map lookup afterwards ok=%v, cache retry ok=%v: the map lookup itself failed", own.name, last.val, rok, ok2))
+						}
 					} else {
-						report("concurrent-live-entry-lost", fmt.Sprintf("Get(%s) missed v=%d (ttl %ds, set at +%s, read at +%s): the entry is live, nobody deleted it, no cleaner snapshot holding the key overlaps the Set, and it is no longer stored",
+						report("free-run-live-entry-lost", fmt.Sprintf("Get(%s) missed v=%d (ttl %ds, set at +%s, read at +%s): the entry is live, its owner did not delete it, no Cleanup/Reset snapshot holding the key overlaps the Set (ttlcache never asked the map to delete it), and it is no longer stored",
 							own.name, last.val, last.ttl, last.tb.Sub(t0), ta.Sub(t0)))
 					}
 				case p < 65:
@@ -849,8 +997,13 @@ func freeRun(res *lib.Result, cs *Case, r *lib.Rand, withReset, long bool) {
 					k := static[wr.Intn(len(static))]
 					if v, ok := c.Get(k); !withReset && (!ok || v != 99) {
 						if stillStored(k, 99) {
+							_, rexp, rok := c.VerifMapGet(k)
 							v2, ok2 := c.Get(k)
-							report("concurrent-lookup-missed-stored-entry", fmt.Sprintf("Get(%s) = (%d,%v) although nobody touched the key, it is live and still stored; retry = (%d,%v)", k, v, ok, v2, ok2))
+							if rok && !ok2 && rexp.After(clk.Now()) {
+								report("untouched-live-key-missed", fmt.Sprintf("Get(%s) keeps missing although the map lookup finds the untouched entry and it expires at %s (now %s)", k, showTime(rexp), showTime(clk.Now())))
+							} else {
+								report("free-run-lookup-missed-stored-entry", fmt.Sprintf("Get(%s) = (%d,%v) although nobody touched the key, it is live and still stored; raw map lookup ok=%v, retry = (%d,%v)", k, v, ok, rok, v2, ok2))
+							}
 						} else {
 							report("untouched-live-key-missed", fmt.Sprintf("Get(%s) = (%d,%v) while cleaners ran; nobody touched the key, it is live, and it is no longer stored", k, v, ok))
 						}
